@@ -232,6 +232,8 @@ pub fn boundary_lits(ev: Ev) -> Vec<String> {
     let mut out: Vec<String> = v.into_iter().map(|s| s.to_string()).collect();
     if matches!(ev, Ev::F64 | Ev::Num) {
         out.extend(["9007199254740992.0", "9223372036854775808.0", "3.0", "0.0"].iter().map(|s| s.to_string()));
+        // integer parts that are exact rounding ties, with a fraction that has to break the tie
+        out.extend(["10000000000000001.5", "9007199254740993.5", "18014398509481986.25", "100000000000000008192.0001", "9007199254740993.0000000000000000000000001"].iter().map(|s| s.to_string()));
     }
     if matches!(ev, Ev::F64 | Ev::Cpx | Ev::Num) {
         out.push(format!("{}.0", big400));
